@@ -22,7 +22,7 @@ sys.path.insert(0, HERE)
 import parse_models  # noqa: E402
 
 UNITS_DIR = os.path.dirname(HERE)
-MAX_COST = int(os.environ.get('EXPALL_MAX_COST', '120'))     # budget per unit (sum of model costs), keeps a Verus run < ~60 s
+MAX_COST = int(os.environ.get('EXPALL_MAX_COST', '95'))     # budget per unit (sum of model costs), keeps a Verus run < ~60 s
 
 
 class Unsupported(Exception):
@@ -165,11 +165,24 @@ def analyse(mo):
     if any(g.startswith("'") for g in mo['tparams']):
         raise Unsupported('lifetime parameters')
     if mo['kind'] == 'enum':
-        if mo['is_stream']:
-            raise Unsupported('stream enum (`is_stream`): the reader goes through PdfStream::from_primitive / as_name, no '
-                              'abstract codec for the variant payload streams; the writer is hand-written')
         if mo['tparams']:
             raise Unsupported('generic enum')
+        if mo['is_stream']:
+            if mo['writer']:
+                raise Unsupported('ObjectWrite derive on a stream enum (the derive has no such form)')
+            for v in mo['members']:
+                if v['unknown'] or v['key'] or v['default'] or v['skip'] or v['indirect'] or v['other'] or v['discr']:
+                    raise Unsupported('variant attribute form not modelled: %r' % v['attrs'])
+                if v['payload'] is None or not v['payload'].startswith('('):
+                    raise Unsupported('stream enum variant %s without exactly one unnamed field (the derive panics)' % v['ident'])
+                v['t'] = parse_ty(v['payload'][1:-1].strip().rstrip(','))
+                if v['t'][0] != 'path' or v['t'][2]:
+                    raise Unsupported('stream enum variant payload %s (the derive emits `#ty::from_primitive`, a plain path only)' % v['payload'])
+                v['pdfname'] = v['name_attr'] if v['name_attr'] is not None else v['ident']
+            mo['ekind'] = 'stream'
+            mo['nfn'] = 1
+            mo['cost'] = 2
+            return
         nd = [v for v in mo['members'] if v['discr'] is not None]
         if nd:
             if len(nd) != len(mo['members']):
@@ -601,6 +614,19 @@ def enum_specs(mo):
     p, E = mo['p'], mo['name']
     V = mo['members']
     out = []
+    if mo['ekind'] == 'stream':
+        lines = ['    match <PdfStream as Object>::reads(p, st) { Err(e__) => Err(e__), Ok(stream) =>']
+        if mo['type_name'] is not None:
+            lines.append('    match expect_spec(stream.info@, %s, "Type"@, %s, %s) { Err(e__) => Err(e__), Ok(_) =>'
+                         % (rlit(E), slit(mo['type_name']), 'true' if mo['type_required'] else 'false'))
+        chain = ' else '.join('if s@ == %s { match <%s as Object>::reads(Primitive::Stream(stream), st) { Err(e__) => Err(e__), Ok(v__) => Ok(%s::%s(v__)) } }'
+                              % (slit(v['pdfname']), ty_rust(v['t']), E, v['ident']) for v in V)
+        body = ('\n'.join(lines) + '\n    if !stream.info@.dom().contains("Subtype"@) { Err(PdfError::MissingEntry { typ: %s }) } else {\n'
+                '    match stream.info@["Subtype"@] {\n        Primitive::Name(s) =>\n            %s\n            else { Err(PdfError::UnknownVariant { id: %s }) },\n'
+                '        q__ => Err(PdfError::UnexpectedPrimitive { expected: "Name", found: q__.debug_name() }),\n    }}\n    ' % (rlit(E), chain.replace(' else if', '\n            else if'), rlit(E))
+                + '}' * len(lines))
+        return ('// a stream whose dictionary names the variant under /Subtype; the variant reader gets the whole stream\n'
+                'pub open spec fn %s_reads(p: Primitive, st: Store) -> Result<%s> {\n%s\n}' % (p, E, body))
     if mo['ekind'] == 'int':
         arms = ', '.join('%s::%s => %s' % (E, v['ident'], v['discr']) for v in V)
         out.append('pub open spec fn %s_int(c: %s) -> i32 { match c { %s } }' % (p, E, arms))
@@ -635,7 +661,10 @@ def enum_impls(mo):
     out.append('}')
     # the codec of the enum as a FIELD type of the struct models of this unit: the trait impl forwards to the extracted
     # functions (proved, not trusted); an enum with an `other(String)` variant has a relational reader -> abstract there
-    if mo['ekind'] in ('int', 'name'):
+    if mo['ekind'] == 'stream':
+        out.append('impl Object for %s {\n    open spec fn reads(p: Primitive, st: Store) -> Result<%s> { %s_reads(p, st) }\n'
+                   '    fn from_primitive<R: Resolve>(p: Primitive, resolve: &R) -> Result<Self> { %s::from_primitive(p, resolve) }\n}' % (E, E, p, E))
+    elif mo['ekind'] in ('int', 'name'):
         if mo['reader']:
             out.append('impl Object for %s {\n    open spec fn reads(p: Primitive, st: Store) -> Result<%s> { %s_reads(p) }\n'
                        '    fn from_primitive<R: Resolve>(p: Primitive, resolve: &R) -> Result<Self> { %s::from_primitive(p, resolve) }\n}' % (E, E, p, E))
@@ -786,19 +815,32 @@ RESOLVE = {'where': 'sig', 'rule': 'R2', 'find': '_resolve', 'replace': 'resolve
 # R9: `match name.as_str() { "lit" => Ok(V), ..., s => .. }` -> if-chain over str_eq (string-literal patterns have no
 # meaning in Verus); R3: the String payload `name:` of UnknownVariant is dropped
 def r9_name_enum(names, other=False):
-    rw = [
+    # both shapes of the last arm are rewritten with count '*': a derive that emits the other one (an `other` variant
+    # ignored / invented) must reach the verifier, not stop at the anchor
+    return [
         {'rule': 'R9', 'find': 'match name.as_str() {', 'replace': '{ let s__ = name.as_str(); ' + lits(*names)},
         {'rule': 'R9', 'count': len(names), 'regex': r'"([^"]+)"\s*=>\s*(Ok\([A-Za-z0-9_:]+\)),', 'replace': r'if str_eq(s__, "\1") { \2 } else'},
+        {'rule': 'R9', 'count': '*', 'regex': r'\bs\s*=>\s*(Ok\([A-Za-z0-9_:]+\(s\.to_string\(\)\)\)),', 'replace': r'{ let s = s__; \1 }'},
+        {'rule': 'R3', 'count': '*', 'regex': r'name:\s*s\.to_string\(\),', 'replace': ''},
+        {'rule': 'R9', 'count': '*', 'regex': r'\bs\s*=>\s*(Err\(pdf::error::PdfError::UnknownVariant\s*\{[^{}]*\}\)),', 'replace': r'{ let s = s__; \1 }'},
     ]
-    if other:
-        rw.append({'rule': 'R9', 'regex': r'\bs\s*=>\s*(Ok\([A-Za-z0-9_:]+\(s\.to_string\(\)\)\)),', 'replace': r'{ let s = s__; \1 }'})
-    else:
-        rw.append({'rule': 'R9', 'regex': r'\bs\s*=>\s*(Err\(pdf::error::PdfError::UnknownVariant\s*\{[^{}]*\}\)),', 'replace': r'{ let s = s__; \1 }'})
-        rw.append({'rule': 'R3', 'find': 'name: s.to_string(),', 'replace': ''})
-    return rw
 
 
 INT_NAME = {'rule': 'R3', 'find': 'name: i.to_string(),', 'replace': ''}
+
+
+# stream enum: R9 `match subty { "PS" => Ok(V(T::from_primitive(Primitive::Stream(stream), resolve)?)), .., s => Err(..) }` -> if-chain;
+# R3 the String payloads `field: "Subtype".into()` (MissingEntry) and `name: s.into()` (UnknownVariant) are dropped
+def r9_stream_enum(names):
+    return [
+        {'rule': 'R3', 'count': '*', 'regex': r'field:\s*"Subtype"\.into\(\),', 'replace': ''},
+        {'rule': 'R3', 'count': '*', 'regex': r'name:\s*s\.into\(\),', 'replace': ''},
+        {'rule': 'R9', 'find': 'match subty {', 'replace': '{ let s__ = subty; ' + lits(*(list(names) + ['Subtype', 'Type']))},
+        {'rule': 'R9', 'count': len(names),
+         'regex': r'"([^"]+)"\s*=>\s*(Ok\(\w+::\w+\(\w+::from_primitive\(pdf::primitive::Primitive::Stream\(stream\),\s*resolve\)\?\)\)),',
+         'replace': r'if str_eq(s__, "\1") { \2 } else'},
+        {'rule': 'R9', 'regex': r'\bs\s*=>\s*(Err\(pdf::error::PdfError::UnknownVariant\s*\{[^{}]*\}\)),', 'replace': r'{ let s = s__; \1 }'},
+    ]
 '''
 
 
@@ -877,6 +919,10 @@ def unit_py(uname, models, decl_only):
             p = mo['p']
             items.append("  'enum %s': decl('enum', %r, %r, priv=%r, ndiscr=%d)," % (n, n, mod, not mo['pub'], nd))
             names = [v['pdfname'] for v in mo['members'] if not v.get('other')] if mo['ekind'] != 'int' else []
+            if mo['ekind'] == 'stream':
+                items.append("  '%s::from_primitive': enum_fn(%r, %r, 'Object', 'from_primitive', RD, [\n      ('rd_model', 'r == %s_reads(p, resolve.store())')], extra=r9_stream_enum(%r)),"
+                             % (n, n, mod, p, [v['pdfname'] for v in mo['members']]))
+                continue
             if mo['reader']:
                 if mo['ekind'] == 'int':
                     items.append("  '%s::from_primitive': enum_fn(%r, %r, 'Object', 'from_primitive', RD, [\n      ('rd_model', 'r == %s_reads(p)')], extra=[RESOLVE, INT_NAME]),"
@@ -932,7 +978,7 @@ def unit_rs(uname, models, decl_only):
             L.append(struct_impl_block(mo))
             L.append(struct_lemmas(mo))
         else:
-            L.append('// %s (%s:%d)  %s enum' % (mo['name'], mo['file'], mo['line'], {'int': 'integer', 'name': 'name', 'name_other': 'name (with `other`)'}[mo['ekind']]))
+            L.append('// %s (%s:%d)  %s enum' % (mo['name'], mo['file'], mo['line'], {'int': 'integer', 'name': 'name', 'name_other': 'name (with `other`)', 'stream': 'stream'}[mo['ekind']]))
             L.append('//@@ enum %s' % mo['name'])
             L.append(enum_specs(mo))
             L.append(enum_impls(mo))
@@ -949,6 +995,9 @@ def models_rs(uname, models, decl_only, all_models):
         if mo['kind'] == 'struct':
             for f in mo['fields']:
                 ty_paths(f['t'], used)
+        elif mo.get('ekind') == 'stream':
+            for v in mo['members']:
+                ty_paths(v['t'], used)
     here = {mo['name']: mo for mo in models}
     here_decl = {mo['name'] for mo in decl_only}
     L = ['// GENERATED by units/expansions_all/gen.py: field types of unit `%s` that are not under proof here (trusted env:' % uname,
@@ -987,6 +1036,53 @@ def models_rs(uname, models, decl_only, all_models):
     return '\n'.join(L) + '\n'
 
 
+# ------------------------------------------------------------------------------------------------ mutants
+def _is_struct(mo):
+    return mo['kind'] == 'struct'
+
+
+def _name_enum(mo):
+    return mo['kind'] == 'enum' and mo['ekind'] in ('name', 'name_other')
+
+
+# master diffs in units/expansions_all/mutants/ (all patch pdf_derive/src/lib.rs); per mutant: which models it affects and the
+# obligation that must fail there.  The first 8 are the mutants of units/expansions.
+MUTANTS = {
+    'writer_skips_option_fields': (lambda mo: _is_struct(mo) and mo['writer'] and any(f['is_option'] for f in mo['fields']), '%s::to_dict/wr_model'),
+    'reader_wrong_key': (lambda mo: _is_struct(mo) and mo['reader'] and any(f['default'] is None and f['key'] != f['ident'] for f in mo['fields']), '%s::from_dict/rd_model'),
+    'default_not_applied': (lambda mo: _is_struct(mo) and mo['reader'] and any(f['default'] is not None for f in mo['fields']), '%s::from_dict/rd_model'),
+    'catch_all_dropped': (lambda mo: _is_struct(mo) and mo['reader'] and mo['other'], '%s::from_dict/rd_model'),
+    'type_tag_not_written': (lambda mo: _is_struct(mo) and mo['writer'] and mo['type_name'] is not None, '%s::to_dict/wr_model'),
+    'type_tag_not_checked': (lambda mo: _is_struct(mo) and mo['reader'] and mo['type_name'] is not None and mo['type_required'], '%s::from_dict/rd_model'),
+    'name_enum_writer_uses_variant_ident': (lambda mo: _name_enum(mo) and mo['writer'], '%s::to_primitive/wr_model'),
+    'indirect_ignored': (lambda mo: _is_struct(mo) and mo['writer'] and mo['indirect'], '%s::to_dict/wr_model'),
+    # new in this wave
+    'optional_type_tag_required': (lambda mo: _is_struct(mo) and mo['reader'] and mo['type_name'] is not None and not mo['type_required'], '%s::from_dict/rd_model'),
+    'int_enum_written_as_name': (lambda mo: mo['kind'] == 'enum' and mo['ekind'] == 'int' and mo['writer'], '%s::to_primitive/wr_model'),
+    'check_entries_not_written': (lambda mo: _is_struct(mo) and mo['writer'] and mo['checks'], '%s::to_dict/wr_model'),
+    'name_enum_other_ignored': (lambda mo: mo['kind'] == 'enum' and mo['ekind'] == 'name_other' and mo['reader'], '%s::from_primitive/rd_model'),
+}
+
+
+def write_mutants(udir, models):
+    mdir = os.path.join(udir, 'mutants')
+    if os.path.isdir(mdir):
+        shutil.rmtree(mdir)
+    os.makedirs(mdir)
+    table = []
+    for name, (pred, ob) in MUTANTS.items():
+        hit = [mo for mo in models if pred(mo)]
+        if not hit:
+            continue          # the mutant changes no expansion of this unit: it would (rightly) verify here
+        body = open(os.path.join(HERE, 'mutants', name + '.diff')).read()
+        with open(os.path.join(mdir, name + '.diff'), 'w') as f:
+            for mo in hit:
+                f.write('# expect: %s\n' % (ob % mo['name']))
+            f.write(body)
+        table.append((name, [ob % mo['name'] for mo in hit]))
+    return table
+
+
 # ------------------------------------------------------------------------------------------------ driver
 def partition(models):
     """source order, budget MAX_COST per unit; an enum named by a default expression stays with (or is declared in) the unit"""
@@ -1015,6 +1111,7 @@ def main():
     units = partition(covered)
     letters = 'abcdefghijklmnopqrstuvwxyz'
     report = []
+    mutant_tables = {}
     for ui, ms in enumerate(units):
         uname = 'expansions_all_' + letters[ui]
         names = {mo['name'] for mo in ms}
@@ -1033,8 +1130,38 @@ def main():
         open(os.path.join(d, 'unit.py'), 'w').write(unit_py(uname, ms, decl_only))
         open(os.path.join(d, 'unit.rs'), 'w').write(unit_rs(uname, ms, decl_only))
         open(os.path.join(d, 'models.rs'), 'w').write(models_rs(uname, ms, decl_only, covered))
+        mtab = write_mutants(d, ms)
+        with open(os.path.join(d, 'NOTES.md'), 'w') as f:
+            f.write('# Unit `%s` (GENERATED by units/expansions_all/gen.py)\n\n' % uname)
+            f.write('One of the units that put **every** pdf_derive `Object` / `ObjectWrite` expansion of the crate under its attribute table (C15, C18).\n'
+                    'Contract shape, rewrites, trusted env, preconditions (none), findings (none), mutants and benign edits: see\n'
+                    '`units/expansions_all/NOTES.md`; the model -> unit table is `units/expansions_all/COVERAGE.txt`.\n\n'
+                    '## Functions under contract (all extracted from `expanded:pdf`)\n\n| model | declared at | functions | obligations |\n|---|---|---|---|\n')
+            for mo in ms:
+                if mo['kind'] == 'struct':
+                    fns, obs = [], []
+                    if mo['reader']:
+                        fns.append('from_dict')
+                        obs.append('rd_model, panic_free, proof_steps')
+                    if mo['writer']:
+                        fns.append('to_dict')
+                        obs.append(('wr_model, wr_frame' if mo['indirect'] else 'wr_ok, wr_model') + ', panic_free, proof_steps')
+                else:
+                    fns, obs = [], []
+                    if mo['reader']:
+                        fns.append('from_primitive')
+                        obs.append('rd_model, panic_free' + (', proof_steps' if mo['ekind'] != 'int' else ''))
+                    if mo['writer']:
+                        fns.append('to_primitive')
+                        obs.append('wr_model, wr_frame, panic_free')
+                f.write('| `%s` | %s:%d | %s | %s |\n' % (MT(mo), mo['file'], mo['line'], ', '.join('`%s`' % x for x in fns), ' / '.join(obs)))
+            f.write('\nLemmas (template, per model): `_unknown`, `_absent`, `_failing`, `_type_checked`, `_dict_lookup`, `_unknown_dict`, `_roundtrip`, `_roundtrip_weak`, `_preserves` as applicable.\n')
+            f.write('\n## Trusted in this unit beyond the shared env\nOpaque stand-ins with abstract codecs (models.rs): ')
+            f.write(', '.join(sorted(set(re.findall(r'^pub struct (\w+)', models_rs(uname, ms, decl_only, covered), re.M)))) or 'none')
+            f.write('.\n\n## Mutants\n' + ''.join('* `%s`: %s\n' % (n_, ', '.join('`%s`' % o for o in obs_)) for n_, obs_ in mtab))
         nfn = sum(mo['nfn'] for mo in ms)
         report.append((uname, ms, nfn))
+        mutant_tables[uname] = mtab
     # remove stale units of an earlier partition
     for dn in sorted(os.listdir(UNITS_DIR)):
         if re.match(r'^expansions_all_[a-z]$', dn) and dn not in [r[0] for r in report]:
@@ -1063,9 +1190,15 @@ def main():
                     what = '%d fields' % len(mo['fields'])
                 else:
                     what = '%s enum, %d variants' % (mo['ekind'], len(mo['members']))
+                    if mo['ekind'] == 'stream' and mo['type_name'] is not None:
+                        forms.append('Type=%s%s' % (mo['type_name'], '' if mo['type_required'] else '?'))
                 fns = ('from_dict' if mo['kind'] == 'struct' else 'from_primitive') if mo['reader'] else ''
                 fns += (('+' if fns else '') + ('to_dict' if mo['kind'] == 'struct' else 'to_primitive')) if mo['writer'] else ''
                 f.write('  %-30s %-28s %-22s %s  %s\n' % (mo['name'], '%s:%d' % (mo['file'][8:], mo['line']), what, fns, ', '.join(forms)))
+        f.write('\nMUTANTS (units/<unit>/mutants/*.diff) and the obligations that must fail\n')
+        for uname, _ms, _n in report:
+            for name, obs in mutant_tables[uname]:
+                f.write('  %-18s %-38s %s\n' % (uname, name, ' '.join(obs)))
         f.write('\nNOT COVERED\n')
         for mo, why in skipped:
             f.write('  %-30s %-28s %s\n' % (mo['name'], '%s:%d' % (mo['file'][8:], mo['line']), why))
